@@ -2,11 +2,17 @@
 // supported input variant decodes to the format-defined pixels, truncated files are rejected (or
 // decode identically) without crash / leak / out-of-bounds access.
 //
+// subchecks: roundtrip (freshly drawn images, incl. pixel content with repeated / nearly repeated rows), derived (images
+// produced by copy/move assignment or construction, set_channel_width, set_has_alpha, mirroring - "saving ANY image"),
+// variant (every supported input container variant), each with optional truncation of the files.
+//
 // Engine note: DESIGN.md plans Hypothesis + Python codecs + a serve shim. The same oracle is
 // implemented here in C++ (harness/c06/codecs.hh: encoders and decoders written from the format
 // specifications, own CRC-32, zlib only for inflate) because it removes the pipe round trip from
 // the ~10^6 prefix loads per run and lets ASan see the loads in-process. A libFuzzer target
 // (fuzz/c06_truncate.cc) drives the same code with coverage guidance.
+#include <memory>
+
 #include <phosg/Image.hh>
 
 #include "c06/codecs.hh"
@@ -99,6 +105,8 @@ static std::string save_via(const phosg::Image& img, phosg::Image::Format f, int
   return mf.contents();
 }
 
+static void check_saved(const phosg::Image& img, const Pix& pix, int via, int save_how, bool trunc, size_t small_limit, const std::string& tag);
+
 // ---------------------------------------------------------------- roundtrip
 // n = [w, h, alpha, cw, style, seed, flags]; flags: bit0 truncate saved files, bits1-2 load entry point, bits3-4 save entry point
 static void run_roundtrip(const Case& c) {
@@ -123,8 +131,18 @@ static void run_roundtrip(const Case& c) {
   }
   if ((w % 4) || alpha || cw > 8) ctx().nontrivial_case();
   ctx().cls(cat("roundtrip:cw", cw, alpha ? ":alpha" : ":opaque"));
+  ctx().cls(cat("roundtrip:pixel-style-", style % 8));
   std::string tag = cat(w, "x", h, alpha ? " alpha" : "", " cw=", cw);
+  check_saved(img, pix, via, save_how, trunc, small_limit, tag);
+}
 
+// The save-side oracle for one image `img` that holds the pixels `pix`: PPM and BMP save->load identity, PPM/BMP/PNG bytes
+// read back by the independent decoders, save overloads byte-identical, wide-channel BMP/PNG and grayscale saves throw,
+// optionally every (listed) prefix of the saved files.
+static void check_saved(const phosg::Image& img, const Pix& pix, int via, int save_how, bool trunc, size_t small_limit, const std::string& tag) {
+  size_t w = pix.w, h = pix.h;
+  bool alpha = pix.alpha;
+  unsigned cw = pix.cw;
   MemFile& mf = memfile();
 
   // --- colour PPM (P6 / P7 RGB_ALPHA), any channel width
@@ -219,7 +237,7 @@ static Case gen_roundtrip() {
   size_t h = vg::chance(1, 3) ? vg::range(1, 9) : vg::range(1, 64);
   bool alpha = vg::coin();
   unsigned cw = vg::pick<unsigned>({8, 8, 8, 16, 32, 64});
-  unsigned style = vg::pick<unsigned>({0, 0, 0, 1, 2, 3, 4});
+  unsigned style = vg::pick<unsigned>({0, 0, 0, 1, 2, 3, 4, 5, 5, 6, 7});
   uint64_t seed = vg::u64();
   size_t approx = w * h * (alpha ? 4 : 3) * (cw / 8);
   uint64_t flags = (approx <= 600 ? vg::chance(1, 2) : vg::chance(1, 12)) ? 1 : 0;
@@ -243,13 +261,151 @@ static void enum_roundtrip(Enum& e) {
           uint64_t flags = (approx <= (e.thorough() ? 2000u : 160u)) ? 1 : 0;
           flags |= (idx % 3) << 1;
           flags |= (idx % 4) << 3;
-          e.exec(Case(e.sc.name).N(w).N(h).N(alpha).N(cw).N(idx % 5).N(idx * 77 + 1).N(flags));
+          // idx runs through the 8 (alpha, cw) combinations innermost: 3*idx + idx/8 gives each of them every pixel style in turn
+          e.exec(Case(e.sc.name).N(w).N(h).N(alpha).N(cw).N((idx * 3 + idx / 8) % 8).N(idx * 77 + 1).N(flags));
           if (e.stop) return;
         }
       }
     }
   }
   e.complete(cat("all widths 1..64 x heights {", heights.size(), " values} x alpha x channel width 8/16/32/64: save as PPM/BMP/PNG, independent decode, reload"));
+}
+
+// ---------------------------------------------------------------- derived
+// "Saving ANY image": images that came to be through copy/move construction or assignment (into a live image of another
+// size / alpha flag / channel width, or into a default-constructed one), set_channel_width, set_has_alpha or a mirror
+// operation are images. After 1..3 such operations the image is described by what its accessors and raw buffer say
+// (dimensions, alpha flag, channel width, samples - what the operations do to the pixels is not C06's business) and then
+// goes through the same save-side oracle as a freshly drawn one.
+// n = [w, h, alpha, cw, style, seed, flags, (op, w2, h2, alpha2, cw2)...]
+enum DerivedOp { OP_COPY_ASSIGN_LIVE = 0,
+  OP_MOVE_ASSIGN_LIVE,
+  OP_COPY_CONSTRUCT,
+  OP_MOVE_CONSTRUCT,
+  OP_SET_CHANNEL_WIDTH,
+  OP_SET_HAS_ALPHA,
+  OP_COPY_ASSIGN_EMPTY,
+  OP_MOVE_ASSIGN_EMPTY,
+  OP_REVERSE_H,
+  OP_REVERSE_V,
+  OP_COUNT };
+static const char* kOpNames[OP_COUNT] = {"copy-assign-into-live", "move-assign-into-live", "copy-construct", "move-construct", "set_channel_width",
+    "set_has_alpha", "copy-assign-into-empty", "move-assign-into-empty", "reverse_horizontal", "reverse_vertical"};
+
+static bool valid_cw(uint64_t cw) { return cw == 8 || cw == 16 || cw == 32 || cw == 64; }
+
+static void run_derived(const Case& c) {
+  size_t w = c.u(0), h = c.u(1);
+  bool alpha = c.u(2) != 0;
+  unsigned cw = c.u(3);
+  unsigned style = c.u(4);
+  uint64_t seed = c.u(5);
+  uint64_t flags = c.u(6);
+  if (w < 1 || w > 64 || h < 1 || h > 64 || !valid_cw(cw) || c.n.size() < 12 || (c.n.size() - 7) % 5 || c.n.size() > 7 + 5 * 4) throw std::logic_error("derived: case outside the domain");
+  int via = (flags >> 1) & 3;
+  if (via == 3) via = 0;
+  int save_how = (flags >> 3) & 3;
+  bool trunc = flags & 1;
+  size_t small_limit = ctx().thorough() ? 2048 : 1024;
+
+  std::unique_ptr<phosg::Image> cur(new phosg::Image(to_image(make_pix(w, h, alpha, cw, style, seed))));
+  std::string tag = cat(w, "x", h, alpha ? " alpha" : "", " cw=", cw);
+  for (size_t k = 7; k < c.n.size(); k += 5) {
+    uint64_t op = c.u(k), w2 = c.u(k + 1), h2 = c.u(k + 2), cw2 = c.u(k + 4);
+    bool alpha2 = c.u(k + 3) != 0;
+    if (op >= OP_COUNT || w2 < 1 || w2 > 64 || h2 < 1 || h2 > 64 || !valid_cw(cw2)) throw std::logic_error("derived: operation outside the domain");
+    ctx().cls(cat("derived:op:", kOpNames[op]));
+    switch (op) {
+      case OP_COPY_ASSIGN_LIVE:
+      case OP_MOVE_ASSIGN_LIVE: {
+        std::unique_ptr<phosg::Image> t(new phosg::Image(to_image(make_pix(w2, h2, alpha2, cw2, 0, seed + k))));
+        if (op == OP_COPY_ASSIGN_LIVE) *t = *cur;
+        else *t = std::move(*cur);
+        cur = std::move(t);
+        tag += cat(" -> ", kOpNames[op], "(", w2, "x", h2, alpha2 ? " alpha" : "", " cw=", cw2, ")");
+        break;
+      }
+      case OP_COPY_ASSIGN_EMPTY:
+      case OP_MOVE_ASSIGN_EMPTY: {
+        std::unique_ptr<phosg::Image> t(new phosg::Image());
+        if (op == OP_COPY_ASSIGN_EMPTY) *t = *cur;
+        else *t = std::move(*cur);
+        cur = std::move(t);
+        tag += cat(" -> ", kOpNames[op]);
+        break;
+      }
+      case OP_COPY_CONSTRUCT:
+      case OP_MOVE_CONSTRUCT: {
+        std::unique_ptr<phosg::Image> t(op == OP_COPY_CONSTRUCT ? new phosg::Image(*cur) : new phosg::Image(std::move(*cur)));
+        cur = std::move(t);
+        tag += cat(" -> ", kOpNames[op]);
+        break;
+      }
+      case OP_SET_CHANNEL_WIDTH: cur->set_channel_width(cw2); tag += cat(" -> set_channel_width(", cw2, ")"); break;
+      case OP_SET_HAS_ALPHA: cur->set_has_alpha(alpha2); tag += cat(" -> set_has_alpha(", alpha2, ")"); break;
+      case OP_REVERSE_H: cur->reverse_horizontal(); tag += " -> reverse_horizontal"; break;
+      default: cur->reverse_vertical(); tag += " -> reverse_vertical"; break;
+    }
+  }
+  Pix pix = from_image(*cur);
+  if (pix.w < 1 || pix.w > 64 || pix.h < 1 || pix.h > 64) throw std::logic_error("derived: the operations left an image outside the domain");
+  ctx().nontrivial_case();
+  ctx().cls(cat("derived:cw", pix.cw, pix.alpha ? ":alpha" : ":opaque"));
+  check_saved(*cur, pix, via, save_how, trunc, small_limit, tag);
+}
+
+static void push_op(Case& c, uint64_t op, uint64_t w2, uint64_t h2, uint64_t alpha2, uint64_t cw2) { c.N(op).N(w2).N(h2).N(alpha2).N(cw2); }
+
+static Case gen_derived() {
+  Case c;
+  size_t w = vg::chance(1, 2) ? vg::range(1, 9) : vg::range(1, 64);
+  size_t h = vg::chance(1, 2) ? vg::range(1, 9) : vg::range(1, 64);
+  unsigned cw = vg::pick<unsigned>({8, 8, 16, 32, 64});
+  size_t approx = w * h * 4 * 8;
+  uint64_t flags = (approx <= 2000 ? vg::chance(1, 3) : vg::chance(1, 20)) ? 1 : 0;
+  flags |= vg::below(3) << 1;
+  flags |= vg::below(4) << 3;
+  c.N(w).N(h).N(vg::coin()).N(cw).N(vg::pick<unsigned>({0, 0, 1, 4, 5, 6, 7})).N(vg::u64()).N(flags);
+  size_t nops = 1 + vg::below(3);
+  for (size_t k = 0; k < nops; k++) {
+    uint64_t op = vg::pick<uint64_t>({OP_COPY_ASSIGN_LIVE, OP_COPY_ASSIGN_LIVE, OP_MOVE_ASSIGN_LIVE, OP_MOVE_ASSIGN_LIVE, OP_COPY_CONSTRUCT, OP_MOVE_CONSTRUCT,
+        OP_SET_CHANNEL_WIDTH, OP_SET_CHANNEL_WIDTH, OP_SET_HAS_ALPHA, OP_SET_HAS_ALPHA, OP_COPY_ASSIGN_EMPTY, OP_MOVE_ASSIGN_EMPTY, OP_REVERSE_H, OP_REVERSE_V});
+    push_op(c, op, vg::range(1, 12), vg::range(1, 12), vg::coin(), vg::pick<unsigned>({8, 16, 32, 64}));
+  }
+  return c;
+}
+
+static void enum_derived(Enum& e) {
+  uint64_t idx = 0;
+  static const unsigned cws[4] = {8, 16, 32, 64};
+  // every operation x (alpha, channel width) of the image x (alpha, channel width) of the other image / of the argument
+  for (uint64_t op = 0; op < OP_COUNT && !e.stop; op++) {
+    for (unsigned a = 0; a < 8; a++) {
+      for (unsigned b = 0; b < 8; b++) {
+        idx++;
+        if (!e.mine(idx)) continue;
+        Case c(e.sc.name);
+        c.N(1 + idx % 7).N(1 + idx % 3).N(a & 1).N(cws[a >> 1]).N(idx % 8).N(idx * 131 + 7).N(((idx % 3) << 1) | ((idx % 4) << 3) | ((idx % 5) == 0));
+        push_op(c, op, 1 + idx % 5, 1 + idx % 4, b & 1, cws[b >> 1]);
+        e.exec(c);
+        if (e.stop) return;
+      }
+    }
+  }
+  // pairs of operations at one small size
+  for (uint64_t op1 = 0; op1 < OP_COUNT && !e.stop; op1++) {
+    for (uint64_t op2 = 0; op2 < OP_COUNT; op2++) {
+      idx++;
+      if (!e.mine(idx)) continue;
+      Case c(e.sc.name);
+      c.N(3 + idx % 4).N(2 + idx % 2).N(idx & 1).N(cws[(idx >> 1) % 4]).N(idx % 8).N(idx * 131 + 7).N((idx % 3) << 1);
+      push_op(c, op1, 2, 3, (idx >> 3) & 1, cws[(idx >> 4) % 4]);
+      push_op(c, op2, 5, 1, (idx >> 6) & 1, cws[(idx / 5) % 4]);
+      e.exec(c);
+      if (e.stop) return;
+    }
+  }
+  e.complete(cat("every one of the ", static_cast<int>(OP_COUNT), " image-producing operations x (alpha, channel width) of the image x (alpha, channel width) of the assignment target / argument, and every ordered pair of operations, at small sizes: the resulting image through the save-side oracle"));
 }
 
 // ---------------------------------------------------------------- input variants
@@ -357,6 +513,16 @@ int main(int argc, char** argv) {
     s.enumerate = enum_roundtrip;
     s.quick_cases = 1200;
     s.thorough_cases = 40000;
+    checks.push_back(s);
+  }
+  {
+    SubCheck s;
+    s.name = "derived";
+    s.run = run_derived;
+    s.gen = gen_derived;
+    s.enumerate = enum_derived;
+    s.quick_cases = 700;
+    s.thorough_cases = 20000;
     checks.push_back(s);
   }
   {
